@@ -157,6 +157,10 @@ class SubsetGroup(HubListener):
         for s in list(self.subsets):
             if s.data is data:
                 self.subsets.remove(s)
+                # Also detach the subset from the dataset, otherwise it comes
+                # back as a second subset for this group (no longer listed
+                # here) if the dataset is added to the collection again.
+                s.delete()
 
     def register_to_hub(self, hub):
 
